@@ -200,10 +200,10 @@ def h_cli() -> bool:
                 if t == cand:
                     data = P[:cand]
         elif what == "corrupt":
-            i = sym_int("i", 150, 165)
+            i = sym_int("i", 152, 159)
             v = sym_int("v", 0, 255)
             data = None
-            for cand in range(150, 166):
+            for cand in range(152, 160):
                 if i == cand:
                     data = mkbytes(P[:cand], [v], P[cand + 1:])
         else:
